@@ -340,8 +340,11 @@ void ConstrainedMajorizationLayout::run(bool x, bool y) {
         // overlapping cluster) state.  The former could be enforced by an
         // earlier stage involving simple rectangular cluster boundaries.
         vector<straightener::Edge*> cedges;
-        if(!straightenEdges && nonOverlappingClusters) {
-            straightenEdges = &cedges;
+        // cedges only lives for this iteration, so its address is kept in
+        // a local pointer rather than in the straightenEdges member.
+        vector<straightener::Edge*>* sedges = straightenEdges;
+        if(!sedges && nonOverlappingClusters) {
+            sedges = &cedges;
         }
         if(preIteration) {
             if ((*preIteration)()) {
@@ -364,9 +367,9 @@ void ConstrainedMajorizationLayout::run(bool x, bool y) {
             } else { break; }
         }
         /* Axis-by-axis optimization: */
-        if(straightenEdges) {
-            if(x) straighten(*straightenEdges,HORIZONTAL);
-            if(y) straighten(*straightenEdges,VERTICAL);
+        if(sedges) {
+            if(x) straighten(*sedges,HORIZONTAL);
+            if(y) straighten(*sedges,VERTICAL);
         } else {
             if(majorization) {
                 if(x) majorize(Dij,gpX,X,startX);
@@ -418,8 +421,11 @@ void ConstrainedMajorizationLayout::runOnce(bool x, bool y) {
         // overlapping cluster) state.  The former could be enforced by an
         // earlier stage involving simple rectangular cluster boundaries.
         vector<straightener::Edge*> cedges;
-        if(!straightenEdges && nonOverlappingClusters) {
-            straightenEdges = &cedges;
+        // cedges only lives for this iteration, so its address is kept in
+        // a local pointer rather than in the straightenEdges member.
+        vector<straightener::Edge*>* sedges = straightenEdges;
+        if(!sedges && nonOverlappingClusters) {
+            sedges = &cedges;
         }
         if(preIteration) {
             if ((*preIteration)()) {
@@ -442,9 +448,9 @@ void ConstrainedMajorizationLayout::runOnce(bool x, bool y) {
             } else { return; }
         }
         /* Axis-by-axis optimization: */
-        if(straightenEdges) {
-            if(x) straighten(*straightenEdges,HORIZONTAL);
-            if(y) straighten(*straightenEdges,VERTICAL);
+        if(sedges) {
+            if(x) straighten(*sedges,HORIZONTAL);
+            if(y) straighten(*sedges,VERTICAL);
         } else {
             if(majorization) {
                 if(x) majorize(Dij,gpX,X,startX);
